@@ -118,17 +118,19 @@ def _offwalk(case):
                     continue
                 kw0["additional_ends"] = ["a"]
             assignments = sweep.flag_sets(cls, 1)
-            ref_obs = drivers.observe(dict(inst, cls=cls, kw=dict(kw0, optimization_options=dict(assignments[1][1]))))
+            c_ref = dict(inst, cls=cls, kw=dict(kw0, optimization_options=dict(assignments[1][1])))
+            ref_obs = drivers.observe(c_ref)
             ref = ("exc", ref_obs["exc_type"]) if ref_obs["exc"] else _objective(cls, ref_obs, "walks")
             if ref_obs["exc"] and ref_obs["exc_type"] != "ValueError":
                 viol.append({"kind": "reference_exception", "msg": f"{cls}({case['offwalk']}, ignored={ign}, additional end={extra_end}, all optimisations off) raised {ref_obs['exc']}"})
                 continue
             for aname, fl in [assignments[0]] + assignments[2:]:
-                obs = drivers.observe(dict(inst, cls=cls, kw=dict(kw0, optimization_options=dict(fl))))
+                c_cur = dict(inst, cls=cls, kw=dict(kw0, optimization_options=dict(fl)))
+                obs = drivers.observe(c_cur)
                 tags["runs"] += 1
                 cur = ("exc", obs["exc_type"]) if obs["exc"] else _objective(cls, obs, "walks")
                 ctx = f"{cls}({case['offwalk']}: arcs {arcs}, off-walk arcs ignored={ign}, additional end at a={extra_end}; options {aname})"
-                if cur != ref:
+                if _really_differs(cls, "walks", c_ref, c_cur, ref, cur, tags):
                     viol.append({"kind": "option_raises" if obs["exc"] else "option_changes_result", "opt": aname,
                                  "msg": f"{ctx}: {cur} {obs['exc'] or ''}, with all optimisations off: {ref}"})
                     break
@@ -139,13 +141,15 @@ def _offwalk(case):
 def _hand_generic(case, inst, kw0, cls, rkey, extra):
     viol, nt, tags = [], [], collections.Counter()
     assignments = sweep.flag_sets(cls, 1)
-    ref_obs = drivers.observe(dict(inst, cls=cls, kw=dict(kw0, optimization_options=dict(assignments[1][1]))))
+    c_ref = dict(inst, cls=cls, kw=dict(kw0, optimization_options=dict(assignments[1][1])))
+    ref_obs = drivers.observe(c_ref)
     ref = ("exc", ref_obs["exc_type"]) if ref_obs["exc"] else _objective(cls, ref_obs, rkey)
     for aname, fl in [assignments[0]] + assignments[2:] + extra:
-        obs = drivers.observe(dict(inst, cls=cls, kw=dict(kw0, optimization_options=dict(fl))))
+        c_cur = dict(inst, cls=cls, kw=dict(kw0, optimization_options=dict(fl)))
+        obs = drivers.observe(c_cur)
         tags["runs"] += 1
         cur = ("exc", obs["exc_type"]) if obs["exc"] else _objective(cls, obs, rkey)
-        if cur != ref:
+        if _really_differs(cls, rkey, c_ref, c_cur, ref, cur, tags):
             viol.append({"kind": "option_raises" if obs["exc"] else "option_changes_result", "opt": aname,
                          "msg": f"{cls}({case['hand_mfd']}: {inst.get('arcs')} {inst.get('node_w', '')} {kw0}; options {aname}): {cur} {obs['exc'] or ''}, with all optimisations off: {ref}"})
         else:
@@ -166,20 +170,38 @@ def _hand_mfd(case):
     extra = [("mingenset", {"use_min_gen_set_lowerbound": True}), ("mingenset+part", {"use_min_gen_set_lowerbound": True, "use_min_gen_set_lowerbound_partition_constraints": True}),
              ("guessed+mgs", {"optimize_with_guessed_weights": True, "use_min_gen_set_lowerbound": True}), ("mingenset,greedy_off", {"use_min_gen_set_lowerbound": True, "optimize_with_greedy": False}),
              ("scanning", {"use_subgraph_scanning_lowerbound": True}), ("scanning+mingenset", {"use_subgraph_scanning_lowerbound": True, "use_min_gen_set_lowerbound": True})]
-    ref_obs = drivers.observe(dict(inst, cls=cls, kw=dict(kw0, optimization_options=dict(assignments[1][1]))))
+    c_ref = dict(inst, cls=cls, kw=dict(kw0, optimization_options=dict(assignments[1][1])))
+    ref_obs = drivers.observe(c_ref)
     ref = ("exc", ref_obs["exc_type"]) if ref_obs["exc"] else _objective(cls, ref_obs, "paths")
     for aname, fl in [assignments[0]] + assignments[2:] + extra:
-        obs = drivers.observe(dict(inst, cls=cls, kw=dict(kw0, optimization_options=dict(fl))))
+        c_cur = dict(inst, cls=cls, kw=dict(kw0, optimization_options=dict(fl)))
+        obs = drivers.observe(c_cur)
         tags["runs"] += 1
         cur = ("exc", obs["exc_type"]) if obs["exc"] else _objective(cls, obs, "paths")
         if obs["exc"] and obs["exc_type"] == "ValueError" and "Cannot optimize with both" in obs["exc"]:
             continue
-        if cur != ref:
+        if _really_differs(cls, "paths", c_ref, c_cur, ref, cur, tags):
             viol.append({"kind": "option_raises" if obs["exc"] else "option_changes_result", "opt": aname,
                          "msg": f"{cls}({case['hand_mfd']}: {inst.get('arcs')} {inst.get('node_w', '')}; options {aname}): {cur} {obs['exc'] or ''}, with all optimisations off: {ref}"})
         else:
             nt.append(f"{case['hand_mfd']}|{aname}")
     return {"v": viol[:4], "nt": nt, "tags": dict(tags), "out": "viol" if viol else "ok"}
+
+
+def _really_differs(cls, rkey, c_ref, c_cur, ref, cur, tags):
+    """trusted-base guard: HiGHS presolve has declared feasible k-models infeasible / returned sub-optimal points on the pinned highspy
+    (a 6-node node-weighted two-cycle instance: kFlowDecompCycles(k=2) 'kInfeasible' with presolve, optimal without). Two answers that
+    differ are therefore both asked again with the documented solver option presolve=off; only a difference that persists is reported."""
+    if cur == ref:
+        return False
+    if ref[0] == "exc" or cur[0] == "exc":
+        return True
+    r2 = _objective(cls, drivers.objective_without_presolve(c_ref), rkey)
+    c2 = _objective(cls, drivers.objective_without_presolve(c_cur), rkey)
+    if r2 == c2:
+        tags["highs_presolve_wrong_verdict"] += 1
+        return False
+    return True
 
 
 def _objective(cls, obs, rkey):
@@ -354,7 +376,8 @@ def run(case):
     from .. import runner
     for iname, ii, kw0 in inputs:
         runner.kick()
-        ref_obs = drivers.observe(dict(ii, cls=cls, kw=dict(kw0, optimization_options=dict(all_off))))
+        c_ref = dict(ii, cls=cls, kw=dict(kw0, optimization_options=dict(all_off)))
+        ref_obs = drivers.observe(c_ref)
         if ref_obs["exc"]:
             viol.append({"kind": "reference_exception", "msg": f"{cls}({iname}, all optimisations off) raised {ref_obs['exc']}"})
             continue
@@ -372,7 +395,7 @@ def run(case):
                 viol.append({"kind": "option_raises", "opt": aname, "msg": f"{ctx} raised {obs['exc']} in {obs['phase']}; without optimisations: {ref}"})
                 continue
             cur = _objective(cls, obs, rkey)
-            if cur != ref:
+            if _really_differs(cls, rkey, c_ref, dict(ii, cls=cls, kw=kw), ref, cur, tags):
                 viol.append({"kind": "option_changes_result", "opt": aname, "msg": f"{ctx}: {cur}, with all optimisations off: {ref}"})
             elif ref[0] == "solved":
                 nt.append(f"{key}|{iname}|{aname}")
